@@ -15,6 +15,8 @@ for name in "$@"; do
     if [ -d "$D/demo" ]; then
         rm -rf $WT/seeded_demo && cp -r "$D/demo" $WT/seeded_demo && cp $WT/Cargo.lock $WT/seeded_demo/
         sed -i "s#/tmp/wt_C[0-9]*[a-z]\\?#$WT#g" $WT/seeded_demo/Cargo.toml
+        # observation-only extra binaries of some demos: `cargo run` must find exactly one binary
+        rm -rf $WT/seeded_demo/src/bin
         (cd $WT/seeded_demo && cargo run --offline -q >$WT/demo_with.log 2>&1); demo_with=$?
     fi
     cargo test $pkgs --lib --offline >$WT/tests.log 2>&1; tests=$?
